@@ -163,6 +163,7 @@ def print_assumptions(props_file, timeout=600):
     closed = out.count('Closed under the global context')
     for m in re.finditer(r'^([A-Za-z_][A-Za-z0-9_\.\']*)\s*:', out, flags=re.M):
         axioms.add(m.group(1))
+    axioms.discard('Axioms')      # the header line Coq prints before a non-empty list
     txt = open(f"{ROOT}/{props_file}").read()
     thms = re.findall(r'^\s*Theorem\s+([A-Za-z0-9_\']+)', txt, flags=re.M)
     printed = re.findall(r'^\s*Print Assumptions\s+([A-Za-z0-9_\']+)\s*\.', txt, flags=re.M)
@@ -216,7 +217,7 @@ def coq_eval_cases(prop_id, run_module, header, terms, shard_size=300, timeout=9
         name = f"{d}/shard{s // shard_size}.v"
         with open(name, 'w') as f:
             f.write(f"From Coq Require Import ZArith List Bool String.\nImport ListNotations.\n"
-                    f"From QCE Require Import Base.Prelude.\nRequire Import {run_module}.\n{header}\n"
+                    f"From QCE Require Import Base.Prelude.\n{header}\nRequire Import {run_module}.\n"
                     "Open Scope Z_scope.\nOpen Scope string_scope.\n"
                     "Definition cases : list case := [\n" + ";\n".join(chunk) + "\n].\n")
             for fn in fns:
